@@ -260,6 +260,18 @@ inductive Rec where
   | bad (w : Why)
 deriving DecidableEq
 
+/-- a `T` record (input: the C string after the `T`) -/
+def classifyT (body : Str) : Rec :=
+  match parseTimes body with
+  | .error w => .timesBad w
+  | .ok (mt, atm) => .times mt atm
+
+/-- a `C`/`D` record (input: the letter and the C string after it) -/
+def classifyCtl (c : UInt8) (body : Str) : Rec :=
+  match parseCtl body with
+  | .error w => .bad w
+  | .ok (mode, size, name) => .ctl (c == cD) mode size name
+
 /-- parse the record in `buf` (`line`: its bytes including the last one read, `ch`) -/
 def classify (line : Str) (ch : UInt8) : Rec :=
   let b0 := line.headD 0
@@ -271,14 +283,8 @@ def classify (line : Str) (ch : UInt8) : Rec :=
     match line.takeWhile (· ≠ 0) with                            -- a C string ends at the first NUL
     | [] => .bad .expected
     | c :: body =>
-      if c = cT then
-        match parseTimes body with
-        | .error w => .timesBad w
-        | .ok (mt, atm) => .times mt atm
-      else if c = cC || c = cD then
-        match parseCtl body with
-        | .error w => .bad w
-        | .ok (mode, size, name) => .ctl (c == cD) mode size name
+      if c = cT then classifyT body
+      else if c = cC || c = cD then classifyCtl c body
       else .bad .expected
 
 /-- a complete record is in `buf` (`line`: its bytes, `ch`: the last byte read) -/
